@@ -14,8 +14,10 @@ TCtx == /\ ~Ev.panic
 TLit == Ev.op = "ctxlit" /\ ~Ev.generic
 \* the command line reports the context of the directory it runs in, whatever PWD says
 TCtxCli == Ev.op = "ctxcli" /\ Ev.same
+\* unrelated files, however many, change nothing: the types are those of the markers alone
+TBig == Ev.op = "ctxbig" /\ Ev.same
 TraceInit == l = 1
-TraceNext == l <= Len(Trace) /\ l' = l + 1 /\ ((Ev.op = "ctx" /\ TCtx) \/ TLit \/ TCtxCli)
+TraceNext == l <= Len(Trace) /\ l' = l + 1 /\ ((Ev.op = "ctx" /\ TCtx) \/ TLit \/ TCtxCli \/ TBig)
 TraceSpec == TraceInit /\ [][TraceNext]_l
 TraceAccepted ==
     LET d == TLCGet("stats").diameter IN
